@@ -46,6 +46,7 @@ func makeStdTree(root string) {
 
 // newUfsH starts the bundled Unix file server on root.
 func newUfsH(root string, msize uint32, dotu bool) *SrvH {
+	resetServerGlobals()
 	u := new(go9p.Ufs)
 	u.Dotu = dotu
 	u.Msize = msize
